@@ -847,7 +847,11 @@ def queries(draw, schema: Schema, feat: Features = None, fuel_range=(1, 3), extr
         shape_opts.append((3, "object"))
     if feat.plumbing:
         shape_opts.append((3, "plumb"))
+        shape_opts.append((1, "handon"))
     shape = g.weighted(shape_opts)
+    force_handon = shape == "handon"  # one sequence handed on bare to the second lambda, which iterates it inside its own loop
+    if force_handon:
+        shape = "plumb"
     # optional event-level Where first
     if feat.where_top and g.chance(1, 4):
         e = g.newvar([], "e")
@@ -886,11 +890,11 @@ def queries(draw, schema: Schema, feat: Features = None, fuel_range=(1, 3), extr
         e = g.newvar([], "e")
         sc = [(e, TEvt())]
         items = []
-        n_items = draw(st.integers(1, 3))
+        n_items = 1 if force_handon else draw(st.integers(1, 3))
         # items that the second lambda never uses are dropped by func_adl: keep them total (no First / index)
         g.safe += 1
         for i in range(n_items):
-            kind = g.weighted([(4, "objseq"), (2, "num"), (1, "numseq")])
+            kind = g.weighted([(4, "objseq"), (2, "num"), (1, "numseq")]) if not force_handon else g.weighted([(3, "objseq"), (1, "numseq")])
             if kind == "objseq":
                 r = g.objseq(sc, 0)
                 items.append((r[0], TSeq(TObj(r[1]))))
@@ -903,7 +907,20 @@ def queries(draw, schema: Schema, feat: Features = None, fuel_range=(1, 3), extr
         g.safe -= 1
         use_dict = g.chance(1, 2)
         t = g.newvar([], "t")
-        if use_dict:
+        if n_items == 1 and (force_handon or g.chance(1, 2)) and ".Where(" in items[0][0] and isinstance(items[0][1], TSeq):
+            # recorded finding handed-on-filtered-sequence: a FILTERED sequence handed on bare and filtered again in two places of the second
+            # lambda is fused by func_adl on shared nodes (the package does not compile): hand it on inside a tuple instead (counted)
+            g.excluded["handed-on-filtered-sequence"] = g.excluded.get("handed-on-filtered-sequence", 0) + 1
+            force_handon = False
+            first = "(" + items[0][0] + ",)"
+            acc = [f"{t}[0]"]
+            g.labels.add("plumbing-tuple")
+        elif n_items == 1 and (force_handon or g.chance(1, 2)):
+            # the value itself is handed on (no tuple around it): the second lambda then works on ONE node, however often it mentions it
+            first = items[0][0]
+            acc = [t]
+            g.labels.add("plumbing-bare")
+        elif use_dict:
             keys = [f"k{i}" for i in range(n_items)]
             first = "{" + ", ".join(f"{k!r}: {it[0]}" for k, it in zip(keys, items)) + "}"
             acc = [f"{t}.{k}" if g.chance(1, 2) else f"{t}[{k!r}]" for k in keys]
@@ -918,9 +935,48 @@ def queries(draw, schema: Schema, feat: Features = None, fuel_range=(1, 3), extr
         for i, (a, it) in enumerate(zip(acc, items)):
             alias[f"__p{i}__"] = a
             scope2.append((f"__p{i}__", it[1]))
+        bare = "plumbing-bare" in g.labels
+        saved2d = g.f.seq2d
+        if bare:
+            # (a 2-D column whose inner loop re-iterates the handed-on collection is the recorded fill-scope finding again)
+            g.f.seq2d = False
+        extra = None
+        if force_handon and form == "bare":
+            form = "tuple"
+        if bare and isinstance(items[0][1], TSeq) and (force_handon or g.chance(1, 2)) and ncols < 4:
+            # the handed-on sequence iterated again inside its own loop / used twice in one expression
+            elem = items[0][1].elem
+            if isinstance(elem, TObj):
+                nm = [m.name for m in schema.classes[elem.cls].methods if m.kind == "num" and not m.enum and not m.tree_type and not m.member and m.ctype != "bool"]
+                if nm:
+                    m1 = g.pick(nm)
+                    extra = g.pick([
+                        (f"{t}.Select(lambda sj: {t}.Where(lambda sk: sk.{m1}() > sj.{m1}()).Count())", TSeq(TNum("int"))),
+                        (f"{t}.Select(lambda sj: {t}.Where(lambda sk: sk.{m1}() > sj.{m1}()).Count())", TSeq(TNum("int"))),
+                        (f"{t}.Select(lambda sj: {t}.Count())", TSeq(TNum("int"))),
+                        (f"({t}.Count() + {t}.Select(lambda sj: sj.{m1}()).Sum())", TNum("double")),
+                        (f"({t}.Select(lambda sj: sj.{m1}()).Sum() > 1 and {t}.Count() > 1)", TNum("bool")),
+                    ])
+            else:
+                extra = g.pick([
+                    (f"{t}.Select(lambda sp: {t}.Where(lambda sq: sq > sp).Count())", TSeq(TNum("int"))),
+                    (f"({t}.Count() + {t}.Sum())", TNum("double")),
+                ])
+            if extra is not None:
+                g.labels.add("handed-on-sequence-self-join")
         body, cols = g.row(scope2, fuel, ncols, form)
+        g.f.seq2d = saved2d
         for k, a in alias.items():
             body = body.replace(k, a)
+        if extra is not None and form in ("tuple", "list", "dict"):
+            if form == "dict":
+                body = body[:-1] + f", 'sx': {extra[0]}" + "}"
+                cols = cols + [("sx", extra[1])]
+            else:
+                close = body[-1]
+                inner = body[1:-1].rstrip(",")
+                body = body[0] + inner + ", " + extra[0] + close
+                cols = cols + [(f"col{len(cols)}", extra[1])]
         text = f"Select(Select({src}, lambda {e}: {first}), lambda {t}: {body})"
         g.nops += 1
     tree = None
